@@ -668,6 +668,88 @@ theorem reload_outcome (g : Guards) (c : Consumer) (keyId : String) (st : Option
   simp only [reload]
   cases load g c keyId blocks <;> rfl
 
+/-! ## an accepted rule set is accepted as a whole -/
+
+theorem Out.bind_eq_ok {α β : Type} {o : Out α} {f : α → Out β} {b : β} (h : o.bind f = .ok b) :
+    ∃ a, o = .ok a ∧ f a = .ok b := by
+  cases o with
+  | ok a => exact ⟨a, rfl, h⟩
+  | err r => simp at h
+  | panic => simp at h
+  | fatal => simp at h
+
+theorem createRule_id (g : Guards) (env : Env) (r : RuleCfg) (id : String) (h : createRule g env r = .ok id) :
+    id = r.id := by
+  simp only [createRule, bind_eq, pure_eq] at h
+  obtain ⟨p, _, h⟩ := Out.bind_eq_ok h
+  obtain ⟨_, _, h⟩ := Out.bind_eq_ok h
+  split at h
+  · simp at h
+  · split at h
+    · simp at h
+    · cases h; rfl
+
+theorem createRules_ids (g : Guards) (env : Env) :
+    ∀ (rs : List RuleCfg) (ids : List String), createRules g env rs = .ok ids → ids = rs.map (·.id) := by
+  intro rs
+  induction rs with
+  | nil => intro ids h; simp [createRules] at h; simp [h]
+  | cons r rs ih =>
+    intro ids h
+    simp only [createRules] at h
+    obtain ⟨id, h1, h⟩ := Out.bind_eq_ok h
+    obtain ⟨rest, h2, h⟩ := Out.bind_eq_ok h
+    cases h
+    rw [createRule_id g env r id h1, ih rest h2]
+    rfl
+
+theorem decodeRule_id (r : RuleDoc) (c : RuleCfg) (h : decodeRule r = .ok c) : c.id = r.id := by
+  simp only [decodeRule, bind, Except.bind, pure, Except.pure] at h
+  cases he : decodeExecute r.execute with
+  | error e => simp [he] at h
+  | ok ex =>
+    cases ho : decodeOnError r.onError with
+    | error e => simp [he, ho] at h
+    | ok oe =>
+      simp [he, ho] at h
+      rw [← h]
+
+theorem mapM_decodeRule_ids : ∀ (ds : List RuleDoc) (cs : List RuleCfg),
+    ds.mapM decodeRule = .ok cs → cs.map (·.id) = ds.map (·.id) := by
+  intro ds
+  induction ds with
+  | nil => intro cs h; simp [pure, Except.pure] at h; subst h; rfl
+  | cons d ds ih =>
+    intro cs h
+    simp only [List.mapM_cons, bind, Except.bind, pure, Except.pure] at h
+    cases hd : decodeRule d with
+    | error e => simp [hd] at h
+    | ok c =>
+      cases hm : ds.mapM decodeRule with
+      | error e => simp [hd, hm] at h
+      | ok rest =>
+        simp [hd, hm] at h
+        subst h
+        simp [decodeRule_id d c hd, ih rest hm]
+
+theorem loadRuleSet_ids (g : Guards) (env : Env) (d : RuleSetDoc) (ids : List String)
+    (h : loadRuleSet g env d = .ok ids) : ids = d.rules.map (·.id) := by
+  unfold loadRuleSet at h
+  split at h
+  · simp at h
+  · cases hm : d.rules.mapM decodeRule with
+    | error e => simp [hm] at h
+    | ok cs =>
+      simp only [hm] at h
+      split at h
+      · simp at h
+      · unfold loadRules at h
+        have hc : createRules g env cs = .ok ids := by
+          split at h
+          · exact (Out.recovered_ok _ _).mp h
+          · exact h
+        rw [createRules_ids g env cs ids hc, mapM_decodeRule_ids d.rules cs hm]
+
 /-! ## background loops -/
 
 theorem survives_of_within {o : Out Unit} {guard : Bool} (h : o.within guard = true) : survives guard o = true := by
